@@ -260,7 +260,22 @@ def run(ck):
                 tys.append(pl.get("ty") or par.local_ty(pl["l"]))
             else:
                 tys.append(o.get("ty", "?"))
-        badc = [t for t in tys if not any(t == a or t.startswith(a) for a in ALLOWED_CAPTURE)]
+        def allowed(t, depth=0):
+            if any(t == a or t.startswith(a) for a in ALLOWED_CAPTURE):
+                return True
+            # a shared reference to a bundle of such values (a context struct of the crate, no interior mutability of its own): every
+            # field is an allowed capture, seen through the reference
+            if depth < 2 and t.startswith("&") and not t.startswith("&mut "):
+                inner = t.lstrip("&")
+                adt = prog.adts.get(inner.split("<")[0])
+                if adt is not None and adt["kind"] == "Struct" and inner.startswith("rapidquilt::"):
+                    import re as _re
+                    fts = [_re.sub(r"&'[a-z_]+ ", "&", f["ty"]) for f in adt["variants"][0]["fields"]]
+                    # `&'a (dyn Trait + 'a)` is `&dyn Trait`
+                    fts = [_re.sub(r"\(dyn ([^()+]+) \+ '[a-z_]+\)", r"dyn \1", ft) for ft in fts]
+                    return bool(fts) and all(allowed(ft, depth + 1) or allowed("&" + ft, depth + 1) for ft in fts)
+            return False
+        badc = [t for t in tys if not allowed(t)]
         ck.require(not badc, "C06-R2", "captures of %s" % cl.id,
                    "closure run on several threads captures %s" % badc, par.where(agg), ok_detail="; ".join(tys))
 
